@@ -1,6 +1,7 @@
 import ComposeVerif.Model.Paths
 import ComposeVerif.Spec.Paths
 import ComposeVerif.Lemmas.PathsTree
+import ComposeVerif.Lemmas.PathsWinSpec
 import ComposeVerif.Gen.Tables
 import ComposeVerif.Gen.PathsConsts
 import ComposeVerif.Neg.C12
@@ -83,6 +84,13 @@ theorem volumeNameLen_never_panics (p : Str) : ∃ n, volumeNameLen? p = some n 
 theorem isWindowsAbs_never_panics (p : Str) : isWindowsAbs? p ≠ none := by
   obtain ⟨b, hb⟩ := isWindowsAbs_total p
   rw [hb]; simp
+
+/-- **the index-based code decides the specification of "Windows-absolute"**: drive letter + `:` + slash, or
+`\\\\server\\share\\…` with non-empty server and share names that do not start with a dot (either slash) -/
+theorem isWindowsAbs_decides_spec (p : Str) : isWindowsAbs? p = some (Spec.winAbs p) := isWindowsAbs_eq_spec p
+
+example : Spec.winAbs ['\\', '\\', 's', '\\', 'h', '\\', 'x'] = true ∧ Spec.winAbs ['c', ':', '/'] = true ∧
+    Spec.winAbs ['c', ':', 'x'] = false ∧ Spec.winAbs ['\\', '\\', '.', '\\', 'p', '\\'] = false := by decide
 
 /-- `maybeUnixPath` on a string never fails -/
 theorem maybeUnixPath_total (cfg : Cfg) (s : Str) : ∃ r, maybeUnixStr cfg s = .ok r := maybeUnixStr_total cfg s
@@ -172,9 +180,9 @@ theorem tilde_expands (k : Kind) (cfg : Cfg) (h rest : Str) (hh : cfg.home = som
   | extendsFile => simp [resolveStr, absExtendsStr, hr rfl, absPathStr_tilde cfg h rest hh ha]
   | mount => exact maybeUnixStr_tilde cfg h rest hh ha
 
-/-- **the model refines the specification** for build contexts, env/label files, watch paths and `extends.file`:
+/-- **the model refines the specification**, for every kind of path attribute:
 whatever `Spec.expected?` prescribes is what the resolver computes -/
-theorem model_meets_spec (k : Kind) (hk : k ≠ .mount) (cfg : Cfg) (s r : Str)
+theorem model_meets_spec (k : Kind) (cfg : Cfg) (s r : Str)
     (h : expected? k cfg.wd cfg.home cfg.remote s = some r) : resolveStr k cfg s = .ok r := by
   unfold expected? at h
   unfold classify at h
@@ -222,10 +230,18 @@ theorem model_meets_spec (k : Kind) (hk : k ≠ .mount) (cfg : Cfg) (s r : Str)
     subst h
     exact abs_untouched k cfg s h5
   simp only [h5, Bool.false_eq_true, if_false] at h
-  have h6 : ¬ (k = .mount ∧ winAbs s = true) := fun e => hk e.1
+  by_cases h6 : k = .mount ∧ winAbs s = true
+  · simp only [h6, and_self, if_true, Option.some.injEq] at h
+    subst h
+    rw [h6.1]
+    exact winabs_untouched_for_mounts cfg s (by rw [isWindowsAbs_eq_spec, h6.2])
   simp only [h6, if_false, Option.some.injEq] at h
   subst h
-  exact relative_is_join k cfg s (by simpa using h5) h3 (by simp [tilde, h4]) hu hr (fun e => absurd e hk)
+  refine relative_is_join k cfg s (by simpa using h5) h3 (by simp [tilde, h4]) hu hr (fun e => ?_)
+  rw [isWindowsAbs_eq_spec]
+  cases hw : winAbs s with
+  | false => rfl
+  | true => exact absurd ⟨e, hw⟩ h6
 
 example : expected? .context ['/', 'w'] (some ['/', 'h']) (fun _ => false) ['.', '/', 'x'] = some ['/', 'w', '/', 'x'] := by decide
 
